@@ -1,6 +1,6 @@
 (* HttpReadProofs.v -- C17: the header read loop for every chunking, and the event order of the connection handler. *)
 From Coq Require Import List NArith ZArith Lia Bool.
-From AnyTLS Require Import Bytes BytesFacts Generated GeneratedFacts HttpText Http HttpTextFacts.
+From AnyTLS Require Import Bytes BytesFacts Generated FactsCore FactsHttp HttpText Http HttpTextFacts.
 Import ListNotations.
 Open Scope N_scope.
 Ltac Zify.zify_post_hook ::= Z.to_euclidean_division_equations.
